@@ -47,6 +47,28 @@ type W7Pack struct {
 	End   uint64  `json:"e"`
 	Seq   int     `json:"seq"`
 	Msgs  []W7Msg `json:"msgs"`
+	// ExtraEnd: further end positions listed BEFORE the pack's last one (message id 100000+i, time = End + Dt; Dt may be
+	// negative, zero or positive, and Zero drops the timestamps altogether): the checkpoint is the LAST position's id
+	ExtraEnd []int `json:"extra_end,omitempty"`
+	ZeroTs   bool  `json:"zero_ts,omitempty"`
+}
+
+// w7Positions builds the start / end positions of a generated pack (the last end position is the pack's own).
+func w7Positions(ch string, pk W7Pack) (starts, ends []*msgpb.MsgPosition) {
+	starts = []*msgpb.MsgPosition{{ChannelName: ch, MsgID: SeqToMsgID(pk.Seq - len(pk.Msgs)), Timestamp: pk.Begin}}
+	for i, dt := range pk.ExtraEnd {
+		ts := uint64(int64(pk.End) + int64(dt))
+		if pk.ZeroTs {
+			ts = 0
+		}
+		ends = append(ends, &msgpb.MsgPosition{ChannelName: ch, MsgID: SeqToMsgID(100000 + i), Timestamp: ts})
+	}
+	endTs := pk.End
+	if pk.ZeroTs && len(pk.ExtraEnd) > 0 {
+		endTs = 0
+	}
+	ends = append(ends, &msgpb.MsgPosition{ChannelName: ch, MsgID: SeqToMsgID(pk.Seq), Timestamp: endTs})
+	return
 }
 
 type W7Script struct {
@@ -107,6 +129,13 @@ func GenW7(rng *Rng) *W7Script {
 			pk.End = ts
 			seq += len(pk.Msgs)
 			pk.Seq = seq
+			if rng.Pct(25) {
+				// several end positions; the last one need not carry the greatest time
+				for i := 0; i < rng.Range(1, 2); i++ {
+					pk.ExtraEnd = append(pk.ExtraEnd, rng.Range(-3, 3))
+				}
+				pk.ZeroTs = rng.Pct(20)
+			}
 			sc.Channels[ch] = append(sc.Channels[ch], pk)
 			ts += uint64(rng.Range(1, 5))
 		}
@@ -233,8 +262,23 @@ func (h *w7Handler) check(param *api.ReplicateMessageParam, n int) {
 	if param.Base == nil || param.Base.ReplicateInfo == nil || !param.Base.ReplicateInfo.IsReplicate {
 		s.Violate("C07", "not_flagged", "channel %s call #%d is not flagged as a replication call", param.ChannelName, n)
 	}
-	if len(param.StartPositions) != 1 || len(param.EndPositions) != 1 || MsgIDToSeq(param.EndPositions[0].MsgID) != pk.Seq || param.EndPositions[0].Timestamp != pk.End || param.StartPositions[0].Timestamp != pk.Begin || param.EndPositions[0].ChannelName != param.ChannelName {
+	wantStarts, wantEnds := w7Positions(param.ChannelName, pk)
+	samePos := func(a, b []*msgpb.MsgPosition) bool {
+		if len(a) != len(b) {
+			return false
+		}
+		for i := range a {
+			if a[i].ChannelName != b[i].ChannelName || string(a[i].MsgID) != string(b[i].MsgID) || a[i].Timestamp != b[i].Timestamp {
+				return false
+			}
+		}
+		return true
+	}
+	if !samePos(param.StartPositions, wantStarts) || !samePos(param.EndPositions, wantEnds) {
 		s.Violate("C07", "envelope", "channel %s call #%d: positions differ from the pack's", param.ChannelName, n)
+	}
+	if len(pk.ExtraEnd) > 0 {
+		s.Probe("several_end_positions")
 	}
 	if len(param.MsgsBytes) != len(pk.Msgs) {
 		s.Violate("C07", "count", "channel %s call #%d carries %d serialized messages, pack has %d", param.ChannelName, n, len(param.MsgsBytes), len(pk.Msgs))
@@ -359,9 +403,8 @@ func RunRigW7(t *testing.T, plan *Plan) {
 			go func() {
 				for i, pk := range sc.Channels[ch] {
 					s.Park(nil, "h", fmt.Sprintf("hrm:%s:%02d", ch, i), nil)
-					pack := &msgstream.MsgPack{BeginTs: pk.Begin, EndTs: pk.End,
-						StartPositions: []*msgpb.MsgPosition{{ChannelName: ch, MsgID: SeqToMsgID(pk.Seq - len(pk.Msgs)), Timestamp: pk.Begin}},
-						EndPositions:   []*msgpb.MsgPosition{{ChannelName: ch, MsgID: SeqToMsgID(pk.Seq), Timestamp: pk.End}}}
+					starts, ends := w7Positions(ch, pk)
+					pack := &msgstream.MsgPack{BeginTs: pk.Begin, EndTs: pk.End, StartPositions: starts, EndPositions: ends}
 					for _, m := range pk.Msgs {
 						pack.Msgs = append(pack.Msgs, buildW7Msg(m, ch))
 					}
